@@ -212,10 +212,12 @@ def c20(tier):
         units.append(U(MACH, "VerifC20When", when=w))
     for mi in (0, 1):
         units.append(U(MACH, "VerifC20Misc", misc=mi))
+    for a in range(6):
+        units.append(U("./pkg/helpers", "VerifC20Ask", ask=a))
     return {"units": units,
             "bounds": {"lists": "sub-lists of 4 names and lists of length <=3 with duplicates / an unknown name", "time": "Time of length 0..3, 64-bit ticks, "
                        "indexes -1..len-1", "queue": "0..2 queued mutations, every Position", "contexts": "nil and live contexts for every When* method"},
-            "outside": ["pkg/helpers wait/ask helpers and pkg/integrations JSON handlers (not encoded in this revision)", "enumeration of entry points by "
+            "outside": ["pkg/helpers wait helpers (AddSync, WaitFor*: timers, reflect.Select) and pkg/integrations JSON handlers (not encoded); of pkg/helpers only CantAdd/CantRemove/AskAdd/AskRemove (+1 variants) on a handler-less 3-state machine", "enumeration of entry points by "
                         "reflection: the list of kernels is static", "Time.Equal(false, shorter) (undocumented precondition; candidate only)"],
             "assumptions": ["documented preconditions only: states exist in the schema, indexes in -1..len-1", "panics are violations (//verif:panics violation)"]}
 
